@@ -618,10 +618,15 @@ func (l *Line) TokenizeBlock(cpos int) ([]string, int, int) {
 			if !single && !double {
 				count, split = closeToken(idx, count, cpos, match, pos, line, split)
 
-				if match == count {
-					return split, 1, 0
-				} else if idx == cpos {
+				// The block is found once its closer has added it to the text
+				// before it: closing a nested block, or a closer that nothing
+				// opened, leaves the search going.
+				switch {
+				case len(split) < 2:
+				case idx == cpos:
 					return split, 1, len(split[1])
+				default:
+					return split, 1, 0
 				}
 			} else if idx == cpos {
 				return nil, 0, 0
@@ -655,6 +660,11 @@ func openToken(idx, count, cpos, match int, pos map[int]int, line []rune, split 
 
 // close the current block token if any.
 func closeToken(idx, count, cpos, match int, pos map[int]int, line []rune, split []string) (int, []string) {
+	// A closer that no opener precedes closes nothing.
+	if count == 0 {
+		return count, split
+	}
+
 	if match == count {
 		split = append(split, string(line[pos[count]:idx]))
 		return count, split
